@@ -25,9 +25,9 @@ def featStr (f : List Char) : String :=
 def renderOut (tok : Bool) : Except Err Out → String
   | .ok o =>
     "ok " ++ (if tok then String.intercalate "," (o.evs.map Ev.render) else String.intercalate ";" (o.docs.map JV.render))
-      ++ "|" ++ featStr o.feat ++ "|" ++ (if o.plus then "1" else "0") ++ "|" ++ toHexF o.lastStrKey
+      ++ "|" ++ featStr o.feat ++ "|" ++ (if o.plus then "1" else "0") ++ "|" ++ toHexF o.lastStrKey ++ "|" ++ toHexF o.lastKey
   | .error e => "err " ++ toString e.line ++ " " ++ toString e.col ++ " " ++ e.kind.name ++ "|" ++ featStr e.feat
-      ++ "|" ++ (if e.plus then "1" else "0") ++ "|" ++ toHexF e.lastStrKey
+      ++ "|" ++ (if e.plus then "1" else "0") ++ "|" ++ toHexF e.lastStrKey ++ "|" ++ toHexF e.lastKey
 
 def tablesOf (t : String) : Option Tables :=
   if t = "sen" then some senTables
@@ -128,9 +128,9 @@ left with `plus` set, `x` (tokenizer) the instance was left expecting a key; `I`
 pinned fast-path deviations fastInt, tokSlow, nlSkip OFF (the repaired machine).
 
 `senstr <0|1 htmlSafe> <hex>` = AppendSENString; `tight <opts n e h> <tree>` = the tight writer. -/
-def handleRun (tb fe md opts chunks hx lsk : String) : String :=
-  match ofHex hx, tablesOf tb, parseChunks chunks, ofHex lsk with
-  | some bs, some T, some ns, some lastStrKey =>
+def handleRun (tb fe md opts chunks hx lsk lk : String) : String :=
+  match ofHex hx, tablesOf tb, parseChunks chunks, ofHex lsk, ofHex lk with
+  | some bs, some T, some ns, some lastStrKey, some lastKey =>
     if md ≠ "single" && md ≠ "multi" then "bad-op"
     else if fe ≠ "P" && fe ≠ "T" then "bad-op"
     else if opts.toList.any (fun c => !optChars.contains c) then "bad-op"
@@ -139,14 +139,14 @@ def handleRun (tb fe md opts chunks hx lsk : String) : String :=
         tokenizer := fe = "T", onlyOne := md = "single", reader := opts.contains 'r',
         fn := if opts.contains 'F' then harnessFn else fun _ => none,
         fastInt := !opts.contains 'I', tokSlow := !opts.contains 'K', nlSkip := !opts.contains 'M' }
-      let prev : St := { plus := opts.contains '+', exkey := opts.contains 'x', lastStrKey := lastStrKey }
+      let prev : St := { plus := opts.contains '+', exkey := opts.contains 'x', lastStrKey := lastStrKey, lastKey := lastKey }
       renderOut cfg.tokenizer (call T cfg prev (if ns.isEmpty then [bs] else splitChunks bs ns))
-  | _, _, _, _ => "bad-op"
+  | _, _, _, _, _ => "bad-op"
 
 def handle : List String → String
-  | ["run", tb, fe, md, opts, chunks, hx] => handleRun tb fe md opts chunks hx "-"
-  -- the same on an instance whose previous call left `lastStrKey` behind
-  | ["run", tb, fe, md, opts, chunks, hx, lsk] => handleRun tb fe md opts chunks hx lsk
+  | ["run", tb, fe, md, opts, chunks, hx] => handleRun tb fe md opts chunks hx "-" "-"
+  -- the same on an instance whose previous call left `lastStrKey` and `lastKey` behind
+  | ["run", tb, fe, md, opts, chunks, hx, lsk, lk] => handleRun tb fe md opts chunks hx lsk lk
   | ["senstr", h, hx] =>
     match ofHex hx with
     | some bs => if h = "1" then toHexF (senString bs true) else if h = "0" then toHexF (senString bs false) else "bad-op"
